@@ -113,6 +113,7 @@ class Recorder:
         self.normal = []  # (size, output)
         self.n_normal = 0
         self.n_beta = 0
+        self.generated_ages = None   # {id: unrounded ages} as returned by `_generate_visit_ages`
 
     @contextlib.contextmanager
     def installed(self):
@@ -135,13 +136,26 @@ class Recorder:
                 rec.n_beta += 1
                 return orig_beta.rvs(*a, **k)
 
+        SA = simmod.SimulationAlgorithm
+        orig_gva = SA._generate_visit_ages
+
+        def gva(algo_self, df):
+            out = orig_gva(algo_self, df)
+            try:
+                rec.generated_ages = {str(k): [float(a) for a in v] for k, v in out.items()}
+            except Exception:  # noqa
+                rec.generated_ages = None
+            return out
+
         np.random.normal = normal
         simmod.beta = BetaProxy()
+        SA._generate_visit_ages = gva
         try:
             yield self
         finally:
             np.random.normal = orig_normal
             simmod.beta = orig_beta
+            SA._generate_visit_ages = orig_gva
 
 
 # ---------------------------------------------------------------------------------------------- case encoding
@@ -478,6 +492,16 @@ def predicate_on_output(env, case, res):
                 got = next((v for k, v in obs.items() if str(k) == i), None)
             if got is not None and sorted(got) != want:
                 fails.append(f"individual {i}: ages {got[:6]} are not the table's ages rounded to 3 decimals {want[:6]}")
+    # the reported ages of every individual are its generated ages, rounded, each once, in increasing order
+    gen = getattr(res.get("rec"), "generated_ages", None)
+    if gen:
+        for i, g in gen.items():
+            want = sorted({float(np.round(np.float64(a), p)) + 0.0 for a in g})
+            got = next((v for k, v in obs.items() if str(k) == str(i)), None)
+            if got is None:
+                fails.append(f"individual {i} has generated visit ages {g[:4]} but is absent from the simulated data")
+            elif [a + 0.0 for a in got] != want:
+                fails.append(f"individual {i}: reported ages {got[:6]} are not its generated ages rounded to {p} decimals {want[:6]}")
     for i, ages in obs.items():
         if len(ages) == 0:
             fails.append(f"individual {i} has no visit")
